@@ -4,5 +4,5 @@ CONSTANTS
   MAXSTEPS = 2
   MAXTICK = 0
   MAXLEN = 0
-  STRIDE = 4
+  STRIDE = 8
 CHECK_DEADLOCK FALSE
